@@ -240,7 +240,7 @@ pub(crate) mod oracle {
         unsafe { std::mem::transmute::<std::ptr::NonNull<()>, crate::database::RawDatabase<'a>>(std::ptr::NonNull::dangling()) }
     }
 
-    //@ob id=K-Z-2 kind=B bound=3-ingredients,1-registered props=C05 fn=Zalsa::new_revision,Zalsa::evict_lru
+    //@off(cbmc-does-not-finish) id=K-Z-2 kind=B bound=3-ingredients,1-registered props=C05 fn=Zalsa::new_revision,Zalsa::evict_lru
     //@ pre: 3 ingredients, exactly one (symbolic which) registered as requiring reset; choose new_revision or evict_lru
     //@ post: reset_for_new_revision is called exactly once, on the registered ingredient; new_revision returns current+1 and installs it; evict_lru leaves the revision alone
     #[cfg_attr(kani, kani::proof)]
